@@ -162,7 +162,9 @@ func exploreImpl(r *Run, workers, bound int, what string, shardI, shardN int, sc
 						if !j.owned && owner(j.prefix) != shardI {
 							c.Silent = true // executed only to find the children; reported by the owning shard
 						}
-						scenario(c)
+						if p, w := Guard(func() { scenario(c) }); p {
+							r.StrayPanic(fmt.Sprintf("%s, choices %v", what, c.Picks), w)
+						}
 						if !c.Silent {
 							atomic.AddInt64(&execs, 1)
 						}
